@@ -335,6 +335,13 @@ def elem1(a, j):
 
 
 def binop(ex, op, a, b, line):
+    for x, y in ((a, b), (b, a)):
+        if isinstance(x, Arr) and isinstance(y, float) and y != y:
+            r = fresh_like(ex, root_of(x) if not isinstance(x, ViewArr) else x)
+            r.term = ex.fresh('allnan', r.term.sort)
+            r.allnan = True
+            return r
+
     def f(x, y):
         return ex.binop(op, x, y)
     if isinstance(a, Arr) and isinstance(b, Arr) and a.ndim == 1 and b.ndim == 1 and (isinstance(a, ViewArr) or isinstance(b, ViewArr)):
